@@ -9,7 +9,7 @@ from .. import mgmt
 from ..specs import ordered_set_history, stores
 
 PROP = "C06"
-W = dict(p_update_filtered=0, probe=0, query=5, load=0.7, save=0.5, clear=0, build=0.2)  # clear_policy leaves the adapter untouched: a later reload is outside C06
+W = dict(p_update_filtered=0, probe=0, query=5, load=0.7, save=0.5, clear=0, build=0.2, long_g=0.15)  # clear_policy leaves the adapter untouched: a later reload is outside C06
 
 
 def spec_check(kind, rows, lf, ops, obs, impl):
@@ -77,7 +77,9 @@ def run(chk, n_random, exh_len):
             kind = mgmt.KINDS[kn].with_(adapter=rng.random() < 0.7)
             g = mgmt.Gen(rng, kind, W)
             rows = g.rows(rng.randint(0, 6))
-            cases.append((kind, rows, True, g.history(rng.randint(3, 16), final_probe=False)))
+            # over-long grouping rules are generated, but never two rules sharing their declared-arity prefix (they
+            # map to one role link: known finding C04/overlong-rules-share-a-link, probed by the C04 check)
+            cases.append((kind, rows, True, mgmt.drop_prefix_aliases(kind, rows, g.history(rng.randint(3, 16), final_probe=False))))
         for adapter in (True, False):
             sub = [(r, lf, o) for k, r, lf, o in cases if k.adapter == adapter]
             mgmt.run_cases(chk, mgmt.KINDS[kn].with_(adapter=adapter), sub, spec_check, label=f"random-{kn}")
